@@ -881,7 +881,9 @@ func (a *genWalker) feedExpr(l lexState, e ast.Expr) lexState {
 	// `q := "\"" + name + "\""` must not split the text it is spliced into)
 	var merged []genPiece
 	for _, p := range ps {
-		isK := func(q genPiece) bool { return q.dyn == nil && q.alts == nil && q.group == nil && q.emit == nil && q.oneOf == nil }
+		isK := func(q genPiece) bool {
+			return q.dyn == nil && q.alts == nil && q.group == nil && q.emit == nil && q.oneOf == nil
+		}
 		if isK(p) && len(merged) > 0 && isK(merged[len(merged)-1]) {
 			merged[len(merged)-1].konst += p.konst
 			continue
